@@ -97,3 +97,15 @@ Proof.
     replace (is_nil (below ++ [mkSF ps])) with false in IH by (destruct below; reflexivity).
     apply IH; [exact Hrest|lia|exact Hbp].
 Qed.
+
+(* ---- what of the program TEXT matters: its token sequence after the `=tok` re-split, and whether the byte `@` occurs in it ---- *)
+Lemma text_dependence : forall p E i e e',
+  win_tokens e = win_tokens e' -> contains_at e = contains_at e' ->
+  win_final_vars p E i e = win_final_vars p E i e' /\
+  forall S (ops : wops S) s, walk_win_framedata ops p E i e s = walk_win_framedata ops p E i e' s.
+Proof.
+  intros p E i e e' Ht Ha.
+  assert (Hi : win_initial_vars E i e = win_initial_vars E i e') by (unfold win_initial_vars; rewrite Ha; reflexivity).
+  assert (Hf : win_final_vars p E i e = win_final_vars p E i e') by (unfold win_final_vars; rewrite Hi, Ht; reflexivity).
+  split; [exact Hf|]. intros. unfold walk_win_framedata. rewrite Hf. reflexivity.
+Qed.
